@@ -217,5 +217,128 @@ def c12(run):
     report_known(run)
 
 
-CHECKS = {"C12": c12, "C01": c01, "C02": c02, "C03": c03, "C04": c04, "C05": c05, "C06": c06, "C07": c07,
+MT_CFG = """SPECIFICATION {spec}
+CONSTANTS Threads = {{{threads}}}
+FixedOrder = {fixed}
+INVARIANT NeverTornDown
+INVARIANT AllDelivered
+INVARIANT NoDuplicates
+{extra}CHECK_DEADLOCK FALSE
+"""
+
+
+def c08(run):
+    run.assumptions = [
+        "library internals (futures mpsc, AtomicWaker, crossbeam channels, std Mutex/RwLock sections without a "
+        "schedule point) are atomic steps, in the model and under the forced schedules alike",
+        "sequential consistency between schedule points (weak-memory reorderings are not explored)",
+        "scenarios: k threads delivering items of one stream through Bridge::handle_response (modelled step by "
+        "step in CruxMT.tla); two threads resolving the two requests of one join through Core::resolve plus an "
+        "event (forced interleavings only)",
+        "harness built with debug-assertions off"]
+    q = run.quick
+    # 1. the interleaving-level model, exhaustively
+    for n in ([2] if q else [2, 3]):
+        th = ", ".join(str(i) for i in range(1, n + 1))
+        lib.mc(run, "CruxMT", MT_CFG.format(spec="Spec", threads=th, fixed="TRUE", extra="INVARIANT NoStuck\n"), {},
+               workers=12, timeout=1500,
+               need_actions=("CtCount", "CwDrop", "ExRun", "CoUpdate", "ExRemove", "ExPutback"),
+               label=f"CruxMT[{n} callers]")
+    # the model must be able to express the eviction race (sensitivity): with the reads in the
+    # other order TLC has to find the torn-down subscription
+    rc, out = lib.tlc("CruxMT", MT_CFG.format(spec="Spec", threads="1, 2", fixed="FALSE", extra=""), {}, workers=4,
+                      timeout=300, tag="sens")
+    if "Invariant NeverTornDown is violated" not in out:
+        raise lib.ToolError("CruxMT no longer finds the eviction race with the unrepaired read order (model lost sensitivity)")
+    run.stages.append({"stage": "CruxMT sensitivity", "kind": "tlc", "result": "race found with FixedOrder=FALSE"})
+    # 2. TLC behaviours -> thread-choice schedules -> real threads
+    cases = [{"name": "d1-tlc-counterexample", "scenario": "stream_bridge", "threads": 2,
+              "sched": [1] * 13 + [2, 1, 2, 2, 2, 2, 1]},
+             {"name": "round-robin", "scenario": "stream_bridge", "threads": 2, "sched": []},
+             {"name": "round-robin-3", "scenario": "stream_bridge", "threads": 3, "sched": []}]
+    for n, num in ((2, 1500 if q else 20000), (3, 500 if q else 20000)):
+        th = ", ".join(str(i) for i in range(1, n + 1))
+        out = lib.tlc_simulate("MC_MT", MT_CFG.format(spec="MSpec", threads=th, fixed="TRUE",
+                                                      extra="INVARIANT EmitSched\n"),
+                               num, 600, run.seed + n, timeout=1200)
+        seen = set()
+        for m in lib.re.finditer(r'<<\s*"SCHED",\s*"(\[[^"]*\])"\s*>>', out, lib.re.S):
+            if m.group(1) in seen:
+                continue
+            seen.add(m.group(1))
+            cases.append({"name": f"tlc-sim-{n}-{len(seen)}", "scenario": "stream_bridge", "threads": n,
+                          "sched": json.loads(m.group(1))})
+        if len(seen) < num // 4:
+            raise lib.ToolError("too few schedules harvested from TLC simulation")
+    cp, op = run.path("mt.cases"), run.path("mt.out")
+    with open(cp, "w") as f:
+        for c in cases:
+            f.write(json.dumps(c) + "\n")
+    rc, out = lib.sh([lib.BIN, "mt", cp, op], timeout=3000)
+    if rc != 0:
+        raise lib.ToolError("mt harness failed: " + out[-2000:])
+    forced = exact = 0
+    points = set()
+    distinct = set()
+    for l in open(op):
+        r = json.loads(l)
+        forced += 1
+        if r.get("stuck") is not None:
+            raise lib.ToolError(f"forced schedule could not make progress: {l[:500]}")
+        distinct.add(json.dumps(r.get("executed")))
+        if r.get("skipped", 1) == 0:
+            exact += 1
+        for h in r.get("points", []):
+            points.update(h)
+        if not r["ok"]:
+            mt_violation(run, r)
+        elif len(run.samples) < 2:
+            run.sample({"forced_schedule": r["executed"][:60], "points_thread1": r["points"][0][:40], "agg": r["agg"]})
+    run.traces += forced
+    run.stages.append({"stage": "forced TLC schedules", "kind": "forced-interleavings", "runs": forced,
+                       "distinct_interleavings": len(distinct), "schedules_followed_without_skips": exact,
+                       "point_names_seen": sorted(points)})
+    # 3. systematic preemption-bounded enumeration on the real threads (both scenarios)
+    for scn, k, p, stride in (("stream_bridge", 2, 2 if q else 3, 1), ("join_core", 3, 2, 1 if not q else 2),
+                              ("stream_bridge", 3, 1 if q else 2, 1)):
+        op2 = run.path(f"mtenum_{scn}_{k}.out")
+        rc, out = lib.sh([lib.BIN, "mtenum", scn, str(k), str(p), op2, str(stride)], timeout=6000)
+        if rc != 0:
+            raise lib.ToolError("mtenum failed: " + out[-2000:])
+        for l in open(op2):
+            r = json.loads(l)
+            if r.get("summary"):
+                run.traces += r["schedules"]
+                run.stages.append({"stage": f"preemption-bounded[{scn},{k} threads,<= {p}]",
+                                   "kind": "forced-interleavings", "schedules": r["schedules"],
+                                   "distinct_interleavings": r["distinct_interleavings"], "bad": r["bad"]})
+            elif not r.get("ok", True):
+                mt_violation(run, r)
+    # 4. the sequential reference is itself a behaviour of the sequential spec
+    seq = [{"name": "mt-seq-ref", "host": "bridge_bin",
+            "progs": [{"k": "chain", "id": 1, "tid": 2, "root": {"k": "stream", "tag": 1, "val": 1}, "stages": [],
+                       "sink": {"tag": 2}}], "follow": {},
+            "steps": [{"a": "run", "p": 0}] + [{"a": "resolve", "o": [1, 2, 0], "val": 10 + i} for i in range(3)]
+            + [{"a": "resolve", "o": [1, 2, 0], "val": 99}, {"a": "noop"}]}]
+    cp2, tp2 = run.path("seq.cases"), run.path("seq.trace")
+    with open(cp2, "w") as f:
+        for c in seq:
+            f.write(json.dumps(c) + "\n")
+    lib.run_harness(cp2, tp2)
+    lib.validate_trace(run, "Trace_Core", tp2, [f["id"] for f in lib.known_findings()["findings"]],
+                       label="sequential reference")
+
+
+def mt_violation(run, r):
+    run.violations += 1
+    p = os.path.join(lib.WORK, "replay", f"{run.prop}-{run.violations}.json")
+    with open(p, "w") as f:
+        json.dump({"kind": "mt", "property": run.prop, "case": r.get("case"), "observed": r.get("agg"),
+                   "sequential_reference": r.get("ref_agg"), "points": r.get("points"), "stuck": r.get("stuck")},
+                  f, indent=1)
+    print(f"VIOLATION property={run.prop} replay={p}")
+    print("  concurrent outcome differs from every sequential order: " + json.dumps(r.get("agg"))[:400])
+
+
+CHECKS = {"C08": c08, "C12": c12, "C01": c01, "C02": c02, "C03": c03, "C04": c04, "C05": c05, "C06": c06, "C07": c07,
           "C09": c09, "C13": c13}
